@@ -45,7 +45,7 @@ def fmtSaved (c : CC.Cache) : String :=
 
 def step (st : St) (line : String) : St × Option String :=
   match (line.trimAscii.toString.splitOn " ").filter (· ≠ "") with
-  | ["circuit", n] => ({ n := n.toNat?.getD 0, building := #[], nodes := [] }, none)
+  | ["circuit", n] => ({ st with n := n.toNat?.getD 0, building := #[], nodes := [], cursor := [] }, none)
   | "A" :: cs => ({ st with building := st.building.push (.and (parseNats cs)) }, none)
   | "O" :: cs => ({ st with building := st.building.push (.or (parseNats cs)) }, none)
   | ["L", l] => ({ st with building := st.building.push (.lit (l.toInt?.getD 0)) }, none)
@@ -91,6 +91,22 @@ def step (st : St) (line : String) : St × Option String :=
   | ["q", "ccundo"] =>
       let (c', v) := CC.undo st.cc
       ({ st with cc := c' }, some ("ccundo " ++ fmtVerdict v ++ " " ++ fmtSaved c'))
+  | "q" :: "msgc" :: rest =>
+      -- like `q msg`, for a model loaded from a CNF: the clause cache of `q ccinit` is part of the state
+      let implToks := rest.takeWhile (· ≠ "|||")
+      let msgToks := (rest.dropWhile (· ≠ "|||")).drop 1
+      let impl := " ".intercalate implToks
+      let (hs, reply) := Msg.handleC st.nodes st.n { cur := st.cursor, cache := some st.cc } (" ".intercalate msgToks)
+      let norm := fun (s : String) => " ".intercalate ((s.split Char.isWhitespace).toList.map (·.toString) |>.filter (· ≠ ""))
+      let isErr := fun (s : String) => match s.toList with
+        | 'E' :: d :: ' ' :: _ => d.isDigit
+        | _ => false
+      let verdict := match reply with
+        | .ok (some t) => if norm t == impl then "agree" else s!"DISAGREE model=ok {t}"
+        | .ok none => if !isErr impl then "agree" else "DISAGREE model=ok ?"
+        | .err c (some t) => if norm t == impl then "agree" else s!"DISAGREE model={t}"
+        | .err c none => if impl.startsWith s!"E{c} " then "agree" else s!"DISAGREE model=E{c} ?"
+      ({ st with cursor := hs.cur, cc := hs.cache.getD st.cc }, some ("msgc " ++ verdict ++ " " ++ fmtSaved (hs.cache.getD st.cc)))
   | ["q", "enumreset"] => ({ st with cursor := [] }, some "enumreset ok")
   | "q" :: kind :: args => (st, some (kind ++ " " ++ answer st.nodes st.n kind args))
   | [] => (st, none)
